@@ -217,14 +217,12 @@ package discovery
 //@ func (*sqlStore).get
 //@   prop C16
 //@   call (*gorm.DB).Order #1 requires [service-timestamp-read-before-the-rows] did(call (*gorm.DB).Find #1) && isNilIface(ret(call (*gorm.DB).Find #1).Error)
-//@   loop 1 invariant true
 //@   ensures [reports-the-timestamp-read-first] isNilIface(result.3) ==> result.2 == service.LastLamportTimestamp && result.1 == service.Seed
 
 //@ func (*sqlStore).search
 //@   prop C16
 //@   call (*gorm.DB).Group #1 requires [only-validated-entries-unless-asked-otherwise] allowUnvalidated || didCallWith("(*gorm.DB).Where", 1, any("validated != 0"))
 //@   call vc.ParseVerifiablePresentation #1 requires [only-unexpired-entries] arg(0) == match.PresentationRaw && match.PresentationExpiration > ret(call (time.Time).Unix #1)
-//@   loop 1 invariant true
 
 // A different, non-empty stored seed: the service's entries are deleted and the row is saved with the
 // new seed and timestamp 0, in one transaction. The same seed (or none yet) changes nothing.
